@@ -10,7 +10,7 @@ PROPERTY = 'C03'
 LEAN_MODULES = ['YatimlModel.Props.C03']
 THEOREMS = ['YatimlModel.C03.' + t for t in [
     'C03_candidates', 'C03_abstract_never', 'C03_unregistered_never', 'C03_union_member',
-    'C03_ambiguity_fails', 'C03_tag_picks', 'C03_no_tag_stays_ambiguous', 'C03_bad_tag_fails', 'C03_registration_order', 'C03_registration_order_single',
+    'C03_ambiguity_fails', 'C03_tag_picks', 'C03_no_tag_stays_ambiguous', 'C03_bad_tag_fails', 'C03_registration_order', 'C03_registration_order_single', 'C03_load_registration_order',
     'C03_union_member_order', 'C03_union_member_order_single']] + [
     'YatimlModel.recognizeReq_perm', 'YatimlModel.recognizeReq_nodup']
 RULE = ('class models with hierarchies (single/multiple inheritance, abstract classes, unregistered '
